@@ -781,6 +781,25 @@ def check_pair(ins, units, cfg, x, a, violations, vrec):
 
 def check_conv(al, drv, cfg, violations, stats, samples):
     req, meta = [], []
+    zz = [l for l in al if l.startswith("A zz ")]
+    al = [l for l in al if not l.startswith("A zz ")]
+    for l in zz:
+        d = kv(l)
+        stats["conv_lines"] += 1
+        ans = drv.ask([f"c19 bin {o} zero zero" for o in OPN + ["add", "sub"]])
+        mbits = "".join(a.split()[-1] if a.startswith("ok bool") else "?" for a in ans[:6])
+        rec = {"kind": "conv", "target": "Zero-Zero operators", "config": cfg, "impl": l, "model": ans}
+        if d["cmp"] != mbits or d["ccmp"] != mbits or ans[6:] != ["ok zero", "ok zero"] or (d["addzero"], d["subzero"]) != ("1", "1"):
+            violations.append({"what": "model and implementation differ on the Zero-Zero operators", "class": "corr-zz",
+                               "no_input": True, "broken": "correspondence: zeroZero", "rec": rec})
+        want = "".join("1" if cmp_exact(o, 0) else "0" for o in OPN)      # 0 op 0 in exact arithmetic
+        if d["cmp"] != want or d["ccmp"] != want or (d["addzero"], d["subzero"]) != ("1", "1"):
+            violations.append({"what": f"ZERO op ZERO is not 0 op 0: got {d['cmp']}/{d['ccmp']}, expected {want}; ZERO±ZERO is Zero: "
+                                       f"{d['addzero']}{d['subzero']}", "class": "oracle-zz",
+                               "rec": dict(rec, observable="ZERO op ZERO", expected=want, actual=d["cmp"])})
+    if not zz:
+        violations.append({"what": "harness printed no Zero-Zero line", "class": "corr-zz", "no_input": True,
+                           "broken": "harness protocol", "rec": {"kind": "conv", "config": cfg}})
     for l in al:
         f = l.split()
         d = kv(l)
